@@ -41,6 +41,14 @@ def size(v):
     return 1
 
 
+def width(v):
+    if v["t"] == "seq":
+        return max([len(v["e"])] + [width(x) for x in v["e"]])
+    if v["t"] == "map":
+        return max([len(v["e"])] + [width(m["v"]) for m in v["e"]])
+    return 0
+
+
 def collide_inputs(ents, rng):
     """map targets fed with two members whose keys parse to the same key (finding F5), permuted"""
     out = []
@@ -180,7 +188,7 @@ def write_ndjson(path, recs):
             f.write(json.dumps(r) + "\n")
 
 
-def mc_inputs_from_trace(trace_path, out_path, maxsize, cap):
+def mc_inputs_from_trace(trace_path, out_path, maxsize, cap, maxwidth=99):
     """small inputs for the generative model, spread over the catalogue entries (largest first within an entry)"""
     seen, per = set(), {}
     with open(trace_path) as f:
@@ -194,7 +202,7 @@ def mc_inputs_from_trace(trace_path, out_path, maxsize, cap):
                 continue
             key = json.dumps([e["ty"], e["val"]], sort_keys=True)
             sz = size(e["val"])
-            if key in seen or sz > maxsize:
+            if key in seen or sz > maxsize or width(e["val"]) > maxwidth:
                 continue
             seen.add(key)
             per.setdefault(e["ty"], []).append((sz, {"ty": e["ty"], "val": e["val"], "pk": e["pk"], "src": e["src"]}))
@@ -307,17 +315,24 @@ def run(pid, tier, prop=None):
     log("[core] %d inputs executed (%.1fs so far)" % (len(recs), time.time() - t0))
 
     # --- TLC on the specification: every order x every answer sequence on the small inputs
-    mcin = os.path.join(tdir, "%s-mcin.ndjson" % pid)
-    nmc = mc_inputs_from_trace(t1, mcin, 7 if tier == "quick" else 9, 220 if tier == "quick" else 1200)
+    # free order explores k! schedules per container of k obligations: narrow inputs; the canonical schedule takes wider ones
+    mcin_free = os.path.join(tdir, "%s-mcin-free.ndjson" % pid)
+    mcin_canon = os.path.join(tdir, "%s-mcin-canon.ndjson" % pid)
+    nmc_free = mc_inputs_from_trace(t1, mcin_free, 7 if tier == "quick" else 9, 220 if tier == "quick" else 1200, 3 if tier == "quick" else 4)
+    nmc_canon = mc_inputs_from_trace(t1, mcin_canon, 12 if tier == "quick" else 16, 300 if tier == "quick" else 1500)
     mc_runs = []
     states = transitions = 0
     violations = []
     replay_recs = []
-    for cfg, workers in (("MC_core_free.cfg", 8), ("MC_core_canon.cfg", 4)):
+    cfgs = [("MC_core_free.cfg", 8), ("MC_core_canon.cfg", 4)]
+    if pid == "C12":
+        cfgs.append(("MC_core_live.cfg", 4))      # <>(the call has returned) under weak fairness, no state constraint
+    for cfg, workers in cfgs:
+        mcin, nmc = (mcin_canon, nmc_canon) if cfg == "MC_core_canon.cfg" else (mcin_free, nmc_free)
         r = vlib.run_tlc("MC_core", cfg, "%s-%s" % (pid, cfg[:-4]), workers=workers, env_extra=dict(cat_env, MCIN=mcin),
                          timeout=1500 if tier == "quick" else 6000, xmx="8g")
         if not r.ok:
-            log(r.error_text)
+            log(r.error_text[:1500])
             path = vlib.save_replay(pid, "mc", {"kind": "tlc-counterexample", "module": "MC_core", "cfg": cfg, "output": r.error_text})
             violations.append((path, "TLC reports an error on the generative machine (%s)" % cfg))
             break
@@ -351,6 +366,9 @@ def run(pid, tier, prop=None):
     for tp in traces:
         tot, bad = validate(pid, tp, 8 if tier == "quick" else 14, env_extra=cat_env)
         log("[trace] %s: %d lines, %d runs, vcount=%s" % (os.path.basename(tp), tot["lines"], tot["runs"], {k: v for k, v in tot["vcount"].items() if v}))
+        others = {k: v for k, v in tot["vcount"].items() if v and k != prop}
+        if others:
+            log("NOTE: this trace also contains deviations charged to other properties (judged by their own checks): %s" % others)
         if tot_all is None:
             tot_all = tot
         else:
